@@ -622,6 +622,198 @@ def _run(ctx):
                 ctx.spec_fail("qnwlogn", "qnwlogn is not (exp(qnwnorm nodes), qnwnorm weights)", rp)
             ctx.count("logn:checked")
 
+    # ---- 4b. optional arguments: every given / omitted / None combination, judged against the DOCUMENTED defaults
+    # (qnwnorm, qnwlogn: mu = zeros(d), sig2 = eye(d), usesqrtm = False; qnwbeta, qnwgamma: a = b = 1)
+    OMIT = object()
+
+    def norm_call(fn, narg, mu_arg, sig_arg, sq_arg):
+        args, kw = [narg], {}
+        # positional while possible, keywords after the first omitted one
+        if mu_arg is not OMIT:
+            kw["mu"] = mu_arg
+        if sig_arg is not OMIT:
+            kw["sig2"] = sig_arg
+        if sq_arg is not OMIT:
+            kw["usesqrtm"] = sq_arg
+        if rng.random() < 0.5 and mu_arg is not OMIT:      # mu positionally
+            args.append(kw.pop("mu"))
+            if sig_arg is not OMIT and rng.random() < 0.5:
+                args.append(kw.pop("sig2"))
+        return fn(*args, **kw)
+
+    def mean_cov_oracle(key, what, X, w, mu, S, rp, tol=Fraction(1, 10 ** 9)):
+        fw = [F(t) for t in w]
+        fX = [[F(t) for t in r] for r in X]
+        d = len(mu)
+        if any(t <= 0 for t in fw) or abs(sum(fw) - 1) > tol:
+            ctx.spec_fail(key, "%s: weights positive=%s, sum=%r" % (what, all(t > 0 for t in fw), float(sum(fw))), rp)
+        for j in range(d):
+            m1 = sum(wi * r[j] for wi, r in zip(fw, fX))
+            ma = sum(wi * abs(r[j]) for wi, r in zip(fw, fX)) + abs(mu[j]) + 1
+            if abs(m1 - mu[j]) > tol * ma:
+                ctx.spec_fail(key, "%s: mean[%d] = %r, documented / requested mean %r" % (what, j, float(m1), float(mu[j])), rp)
+            for l in range(j, d):
+                c = sum(wi * (r[j] - mu[j]) * (r[l] - mu[l]) for wi, r in zip(fw, fX))
+                ca = sum(wi * abs(r[j] - mu[j]) * abs(r[l] - mu[l]) for wi, r in zip(fw, fX)) + 1
+                if abs(c - S[j][l]) > tol * ca:
+                    ctx.spec_fail(key, "%s: cov[%d,%d] = %r, documented / requested %r" % (what, j, l, float(c), float(S[j][l])), rp)
+
+    mu_kinds = ["omit", "none", "scalar", "vector"]
+    sig_kinds = ["omit", "none", "given", "given-flat"]
+    sq_kinds = ["omit", False, True]
+    combos = [(d, mk, sk, qk) for d in (1, 2, 3) for mk in mu_kinds for sk in sig_kinds for qk in sq_kinds]
+    if not ctx.thorough:
+        # quick: every (d, mu kind, sig2 kind) once, usesqrtm cycling
+        combos = [(d, mk, sk, sq_kinds[(i + j + d) % 3]) for d in (1, 2, 3)
+                  for i, mk in enumerate(mu_kinds) for j, sk in enumerate(sig_kinds)]
+    for (d, mk, sk, qk) in combos * ctx.n(1, 3):
+        nn = [rng.randint(2, 6 if d < 3 else 4) for _ in range(d)]
+        narg = nn[0] if (d == 1 and rng.random() < 0.5) else (np.array(nn) if rng.random() < 0.7 else list(nn))
+        mu_req = [dy(rng, -4, 4, 8) for _ in range(d)]
+        mu_req = [m if m != 0 else Fraction(3, 2) for m in mu_req]        # a dropped mean must be visible
+        A = [[Fraction(rng.randint(-4, 4), 4) for _ in range(d)] for _ in range(d)]
+        S_req = [[sum(A[i][k] * A[j][k] for k in range(d)) + (Fraction(rng.randint(2, 8), 4) if i == j else 0)
+                  for j in range(d)] for i in range(d)]
+        # what is passed, and what the documentation says it means
+        if mk == "omit":
+            mu_arg, mu_doc = OMIT, [Fraction(0)] * d
+        elif mk == "none":
+            mu_arg, mu_doc = None, [Fraction(0)] * d
+        elif mk == "scalar":
+            mu_arg, mu_doc = float(mu_req[0]), [mu_req[0]] * d
+        else:
+            mu_arg, mu_doc = np.array([float(t) for t in mu_req]), list(mu_req)
+            if d == 1 and rng.random() < 0.5:
+                mu_arg = [float(mu_req[0])]
+        eye = [[Fraction(int(i == j)) for j in range(d)] for i in range(d)]
+        if sk == "omit":
+            sig_arg, S_doc = OMIT, eye
+        elif sk == "none":
+            sig_arg, S_doc = None, eye
+        elif sk == "given":
+            sig_arg, S_doc = np.array([[float(t) for t in r] for r in S_req]), S_req
+            if d == 1:
+                sig_arg = float(S_req[0][0])
+        else:
+            sig_arg, S_doc = [float(t) for r in S_req for t in r], S_req
+        sq_arg = OMIT if qk == "omit" else qk
+        use_sqrtm = (qk is True)
+        rp = {"op": "qnwnorm", "n": nn, "mu": mk if mk in ("omit", "none") else [float(t) for t in mu_doc],
+              "sig2": sk if sk in ("omit", "none") else [[float(t) for t in r] for r in S_doc],
+              "usesqrtm": "omit" if qk == "omit" else qk, "mu_kind": mk, "sig2_kind": sk}
+        ctx.count("optargs:mu=%s" % mk)
+        ctx.count("optargs:sig2=%s" % sk)
+        ctx.count("optargs:usesqrtm=%s" % qk)
+        ctx.count("optargs:d=%d" % d)
+        try:
+            x, w = norm_call(Q.qnwnorm, narg, mu_arg, sig_arg, sq_arg)
+        except Exception as e:
+            ctx.spec_fail("qnwnorm-optargs", "qnwnorm raised %s: %s" % (type(e).__name__, e), rp)
+            continue
+        N = int(np.prod(nn))
+        if np.size(x) != N * d or np.shape(w) != (N,):
+            ctx.spec_fail("qnwnorm-optargs", "qnwnorm output shape %s / %s" % (np.shape(x), np.shape(w)), rp)
+            continue
+        X = np.asarray(x, dtype=float).reshape(N, d)
+        mean_cov_oracle("qnwnorm-optargs", "qnwnorm(mu %s, sig2 %s)" % (mk, sk), X, w, mu_doc, S_doc, rp)
+        # correspondence: default handling + affine map of the model on the code's standard nodes
+        z, wz = Q.qnwnorm(narg)
+        Z = np.asarray(z, dtype=float).reshape(N, d)
+        fS = np.array([[float(t) for t in r] for r in S_doc])
+        L = np.real(np.asarray(la.sqrtm(fS) if use_sqrtm else la.cholesky(fS))).reshape(d, d)
+        if mk in ("omit", "none"):
+            mu_wire = "none"
+        elif mk == "scalar":
+            mu_wire = fx(float(mu_req[0]))
+        else:
+            mu_wire = fxs([float(t) for t in mu_req])
+        bound = 16 * EPS * max(1, float(np.max(np.abs(Z))) * float(np.max(np.abs(L))) * d + max(abs(float(t)) for t in mu_doc))
+        cases.append(Case("C08 normnodes d=%d mu=%s L=%s Z=%s" % (d, mu_wire, fxm(L), fxm(Z)), fxm(X),
+                          nontrivial=(mk not in ("omit", "none") or sk not in ("omit", "none")), tag="normnodes",
+                          cmp=_mat_env(Fraction(bound))))
+        sig_wire = "none" if sk in ("omit", "none") else rats([t for r in S_req for t in r])
+        cases.append(Case("C08 sig2 d=%d sig2=%s" % (d, sig_wire), ratm(S_doc), nontrivial=False, tag="sig2-default"))
+        # qnwlogn (no usesqrtm argument): log of the nodes has the documented mean / covariance
+        try:
+            xl, wl = norm_call(Q.qnwlogn, narg, mu_arg, sig_arg, OMIT)
+        except Exception as e:
+            ctx.spec_fail("qnwlogn-optargs", "qnwlogn raised %s: %s" % (type(e).__name__, e), rp)
+            continue
+        XL = np.asarray(xl, dtype=float).reshape(N, d)
+        if not np.all(XL > 0):
+            ctx.spec_fail("qnwlogn-optargs", "qnwlogn: a node is not positive", dict(rp, op="qnwlogn"))
+        else:
+            mean_cov_oracle("qnwlogn-optargs", "log of qnwlogn(mu %s, sig2 %s)" % (mk, sk), np.log(XL), wl, mu_doc, S_doc,
+                            dict(rp, op="qnwlogn"), tol=Fraction(1, 10 ** 8))
+
+    # qnwbeta / qnwgamma / qnwcheb defaults (a = b = 1), d = 1, 2, 3, given / omitted, positional / keyword
+    for rep in range(ctx.n(18, 90)):
+        d = 1 + rep % 3
+        nn = [rng.randint(1, 6 if d < 3 else 4) for _ in range(d)]
+        narg = nn[0] if d == 1 else np.array(nn)
+        which = ["beta", "gamma"][rep % 2]
+        give_a, give_b = [(False, False), (True, False), (False, True), (True, True)][(rep // 2) % 4]
+        pa = [shape_par(rng) for _ in range(d)]
+        pb = [shape_par(rng) if which == "beta" else dy(rng, 0.125, 8, 8) for _ in range(d)]
+        scalar_args = rng.random() < 0.4 or d == 1
+        if scalar_args:
+            pa, pb = [pa[0]] * d, [pb[0]] * d
+        kw = {}
+        if give_a:
+            kw["a"] = float(pa[0]) if scalar_args else np.array([float(t) for t in pa])
+        if give_b:
+            kw["b"] = float(pb[0]) if scalar_args else np.array([float(t) for t in pb])
+        a_doc = pa if give_a else [Fraction(1)] * d
+        b_doc = pb if give_b else [Fraction(1)] * d
+        rp = {"op": "qnw" + which, "n": nn, "a": [float(t) for t in a_doc] if give_a else "omit",
+              "b": [float(t) for t in b_doc] if give_b else "omit"}
+        ctx.count("optargs:%s:a=%s,b=%s" % (which, "given" if give_a else "omit", "given" if give_b else "omit"))
+        if which == "beta" and any(n_ == 3 and b_ < Fraction(1, 4) and a_ > 6 for n_, a_, b_ in zip(nn, a_doc, b_doc)):
+            continue                                   # the known qnwbeta defect has its own corpus and key
+        fn = Q.qnwbeta if which == "beta" else Q.qnwgamma
+        try:
+            if give_a and not give_b and rng.random() < 0.5:
+                x, w = fn(narg, kw["a"])
+            else:
+                x, w = fn(narg, **kw)
+        except Exception as e:
+            ctx.spec_fail("qnw%s-optargs" % which, "qnw%s raised %s: %s" % (which, type(e).__name__, e), rp)
+            continue
+        N = int(np.prod(nn))
+        X = np.asarray(x, dtype=float).reshape(N, d)
+        fw = [F(t) for t in np.atleast_1d(w)]
+        tol = TOL[which] * 10
+        if abs(sum(fw) - 1) > tol:
+            ctx.spec_fail("qnw%s-optargs" % which, "qnw%s: weights sum to %r" % (which, float(sum(fw))), rp)
+        for k in range(d):
+            mom = mom_beta(a_doc[k], b_doc[k]) if which == "beta" else mom_gamma(a_doc[k], b_doc[k])
+            for deg in range(1, min(2 * nn[k] - 1, 3) + 1):
+                got = sum(wi * F(t) ** deg for wi, t in zip(fw, X[:, k]))
+                if abs(got - mom(deg)) > tol * (abs(mom(deg)) + 1):
+                    ctx.spec_fail("qnw%s-optargs" % which, "qnw%s: moment %d of coordinate %d is %r, documented %r"
+                                  % (which, deg, k, float(got), float(mom(deg))), rp)
+    # qnwcheb(n) with the documented defaults a = b = 1: the degenerate interval [1, 1]
+    for n in (1, 2, 5):
+        x, w = Q.qnwcheb(n)
+        if not (np.all(np.atleast_1d(x) == 1.0) and np.all(np.atleast_1d(w) == 0.0)):
+            ctx.spec_fail("qnwcheb-defaults", "qnwcheb(%d) with the default a=b=1 is not the null rule at 1" % n, {"n": n})
+    # qnwequi / quadrect defaults: kind="N" / kind="lege"
+    for rep in range(ctx.n(4, 20)):
+        n = rng.randint(1, 20)
+        a0, b0 = float(dy(rng, -4, 0, 8)), float(dy(rng, 1, 4, 8))
+        x0, w0 = Q.qnwequi(n, a0, b0)
+        x1, w1 = Q.qnwequi(n, a0, b0, kind="N")
+        if not (np.array_equal(x0, x1) and np.array_equal(w0, w1)):
+            ctx.spec_fail("qnwequi-defaults", "qnwequi without kind differs from kind='N'", {"n": n, "a": a0, "b": b0})
+        g = lambda t: 1.0 + t + t ** 3
+        q0 = Q.quadrect(g, n + 1, a0, b0)
+        q1 = Q.quadrect(g, n + 1, a0, b0, kind="lege")
+        exact = (F(b0) - F(a0)) + (F(b0) ** 2 - F(a0) ** 2) / 2 + (F(b0) ** 4 - F(a0) ** 4) / 4
+        if q0 != q1 or (n + 1 >= 2 and abs(F(q0) - exact) > Fraction(1, 10 ** 10) * (abs(exact) + 100)):
+            ctx.spec_fail("quadrect-defaults", "quadrect without kind: %r, kind='lege': %r, exact integral %r"
+                          % (q0, q1, float(exact)), {"n": n + 1, "a": a0, "b": b0})
+        ctx.count("optargs:equi/quadrect-defaults")
+
     # ---- 5. qnwequi, quadrect ---------------------------------------------------------------------
     class Rs(np.random.RandomState):
         pass
